@@ -607,8 +607,13 @@ class PurityScenario(Scenario):
                     out.append(E('attr', ['@MAT', rng.choice(['transmission', 'emission'])], id=sp))
                 else:
                     out.append(E('path_transmission', [rng.choice([['@MAT'], ['@SP1'], ['@SP1', 1.0]])], id=sp))
-                out.append(E('Spectrum.crop', ['@' + sp, 450.0, 550.0], inplace=['@' + sp]))
-                out.append(E('Spectrum.to', ['@' + sp, 'um'], inplace=['@' + sp]))
+                # (in either order: the first in-place edit is the one that meets whatever the derived object still shares with its source)
+                edits_ = [E('Spectrum.crop', ['@' + sp, 450.0, 550.0], inplace=['@' + sp]),
+                          E('Spectrum.to', ['@' + sp, rng.choice(['um', 'm', 'angstrom'])], inplace=['@' + sp])]
+                if rng.random() < 0.5:
+                    edits_.reverse()
+                    edits_[1]['a'][1:] = [0.45, 0.55] if edits_[0]['a'][1] == 'um' else ([4.5e-7, 5.5e-7] if edits_[0]['a'][1] == 'm' else [4500.0, 5500.0])
+                out.extend(edits_)
                 out.append(E('Spectrum.integrate', ['@SP1']))
             return out
 
